@@ -310,3 +310,35 @@ def conservation(inp, obs):
                 ci += d
             prev = x
     return None
+
+
+# ------------------------------------------------------------ adjacency oracle
+def tail_end(f):
+    """the contig end that faces the scaffold end: (name, coordinate, side)"""
+    return (f[1], f[3], "R") if f[4] == 1 else (f[1], f[2], "L")
+
+
+def head_end(f):
+    return (f[1], f[2], "L") if f[4] == 1 else (f[1], f[3], "R")
+
+
+def adjacencies(scaffolds):
+    """unordered pairs of facing contig ends of consecutive fragments (gaps
+    skipped) -> list of the gap rows between them"""
+    adj = {}
+    for sc in scaffolds:
+        prev = None
+        gaps = []
+        for r in sc["rows"]:
+            if r[0] == "G":
+                gaps.append(r)
+                continue
+            if prev is not None:
+                adj[frozenset((tail_end(prev), head_end(r)))] = list(gaps)
+            prev = r
+            gaps = []
+    return adj
+
+
+def all_out_scaffolds(obs):
+    return [s for a in obs["asms"] for s in a["scaffolds"]]
